@@ -341,9 +341,24 @@ def emit_match_fn(defname, argname, argtype, rettype, arms, aliases):
     out = ['def %s (%s : %s) : %s :=' % (defname, argname, argtype, rettype),
            '  match %s with' % argname]
     for pat, expr in arms:
-        p = P(pat, aliases).whole()
+        # or-patterns `A | B => e`: split at top-level `|`
+        alts, cur, depth = [], [], 0
+        for tok in pat:
+            if tok[0] == 'op' and tok[1] in '({[':
+                depth += 1
+            elif tok[0] == 'op' and tok[1] in ')}]':
+                depth -= 1
+            if tok == ('op', '|') and depth == 0:
+                alts.append(cur)
+                cur = []
+            else:
+                cur.append(tok)
+        alts.append(cur)
+        if alts and alts[0] == []:
+            alts = alts[1:]  # leading `|`
+        ps = [lean_term(P(a, aliases).whole(), None) for a in alts]
         e = P(expr, aliases).whole()
-        out.append('  | %s => %s' % (lean_term(p, None), lean_term(e, None)))
+        out.append('  | %s => %s' % (' | '.join(ps), lean_term(e, None)))
     out.append('')
     return out
 
@@ -588,10 +603,36 @@ def main():
     al_rq = parse_aliases(request)
     al_rs = parse_aliases(response)
 
+    # Tables that the correspondence domain TBL (or RESP) compares with the binary over their WHOLE
+    # finite domain fall back, when the source no longer has a shape the translator reads (a `match`
+    # rewritten as a cast or a lookup array, say), to the text generated from the last tree on which it
+    # did (translator/last_good/, committed). The fallback is reported (fallbacks.json); `check` then
+    # runs the exhaustive comparison for every property, so a table whose meaning changed still shows
+    # up, with the number as the failing input.
+    last_good = os.path.join(os.path.dirname(os.path.abspath(__file__)), 'last_good')
+    update_last_good = '--update-last-good' in sys.argv
+    fallbacks = []
+
+    def soft(defname, thunk):
+        p = os.path.join(last_good, defname.replace('?', '_opt') + '.lean')
+        try:
+            lines = thunk()
+        except (TranslateError, IndexError, KeyError) as e:
+            if not os.path.exists(p):
+                raise
+            fallbacks.append(dict(item=defname, reason=str(e)))
+            return open(p).read().split('\n')
+        if update_last_good:
+            os.makedirs(last_good, exist_ok=True)
+            open(p, 'w').write('\n'.join(lines))
+        return lines
+
     def table(toks, hdr, fn, defname, argname, argtype, rettype, aliases):
-        body = find_fn_body(toks, hdr, fn)
-        scrut, arms = find_match(body)
-        return emit_match_fn(defname, argname, argtype, rettype, split_arms(arms), aliases)
+        def thunk():
+            body = find_fn_body(toks, hdr, fn)
+            scrut, arms = find_match(body)
+            return emit_match_fn(defname, argname, argtype, rettype, split_arms(arms), aliases)
+        return soft(defname, thunk)
 
     L += table(packet, ['impl', 'From', '<', 'u16', '>', 'for', 'CoapOption'], 'from',
                'CoapOption.ofU16', 'number', 'Nat', 'CoapOption', al_p)
@@ -611,36 +652,49 @@ def main():
                'MessageClass.toU8', 'cls', 'MessageClass', 'Nat', al_h)
 
     # Header::set_type / get_type
-    body = find_fn_body(header, ['impl', 'Header', '{'][:2], 'set_type')
-    scrut, arms = find_match(body)
-    L += emit_match_fn('MessageType.toBits', 't', 'MessageType', 'Nat', split_arms(arms), al_h)
-    body = find_fn_body(header, ['impl', 'Header'], 'get_type')
-    scrut, arms = find_match(body)
-    arms2 = []
-    for pat, expr in split_arms(arms):
-        if expr and expr[0] == ('id', 'unreachable'):
-            # `_ => unreachable!()` – the scrutinee is a 2-bit field; keep as none
-            arms2.append((pat, [('id', 'None')]))
-        else:
-            arms2.append((pat, [('id', 'Some'), ('op', '(')] + expr + [('op', ')')]))
-    L += emit_match_fn('MessageType.ofBits?', 'tn', 'Nat', 'Option MessageType', arms2, al_h)
+    def t_tobits():
+        body = find_fn_body(header, ['impl', 'Header', '{'][:2], 'set_type')
+        scrut, arms = find_match(body)
+        return emit_match_fn('MessageType.toBits', 't', 'MessageType', 'Nat', split_arms(arms), al_h)
+    L += soft('MessageType.toBits', t_tobits)
+
+    def t_ofbits():
+        body = find_fn_body(header, ['impl', 'Header'], 'get_type')
+        scrut, arms = find_match(body)
+        arms2 = []
+        for pat, expr in split_arms(arms):
+            if expr and expr[0] == ('id', 'unreachable'):
+                # `_ => unreachable!()` – the scrutinee is a 2-bit field; keep as none
+                arms2.append((pat, [('id', 'None')]))
+            else:
+                arms2.append((pat, [('id', 'Some'), ('op', '(')] + expr + [('op', ')')]))
+        return emit_match_fn('MessageType.ofBits?', 'tn', 'Nat', 'Option MessageType', arms2, al_h)
+    L += soft('MessageType.ofBits?', t_ofbits)
 
     # CoapRequest::get_method, CoapResponse::get_status, CoapResponse::new
-    body = find_fn_body(request, ['impl', '<', 'Endpoint', '>', 'CoapRequest', '<', 'Endpoint', '>'], 'get_method')
-    scrut, arms = find_match(body)
-    L += emit_match_fn('getMethodTable', 'code', 'MessageClass', 'RequestType', split_arms(arms), al_rq)
-    body = find_fn_body(response, ['impl', 'CoapResponse'], 'get_status')
-    scrut, arms = find_match(body)
-    L += emit_match_fn('getStatusTable', 'code', 'MessageClass', 'ResponseType', split_arms(arms), al_rs)
-    body = find_fn_body(response, ['impl', 'CoapResponse'], 'new')
-    scrut, arms = find_match(body)
-    arms2 = []
-    for pat, expr in split_arms(arms):
-        if expr[:2] == [('id', 'return'), ('id', 'None')]:
-            arms2.append((pat, [('id', 'None')]))
-        else:
-            arms2.append((pat, [('id', 'Some'), ('op', '(')] + expr + [('op', ')')]))
-    L += emit_match_fn('responseTypeFor', 't', 'MessageType', 'Option MessageType', arms2, al_rs)
+    def t_method():
+        body = find_fn_body(request, ['impl', '<', 'Endpoint', '>', 'CoapRequest', '<', 'Endpoint', '>'], 'get_method')
+        scrut, arms = find_match(body)
+        return emit_match_fn('getMethodTable', 'code', 'MessageClass', 'RequestType', split_arms(arms), al_rq)
+    L += soft('getMethodTable', t_method)
+
+    def t_status():
+        body = find_fn_body(response, ['impl', 'CoapResponse'], 'get_status')
+        scrut, arms = find_match(body)
+        return emit_match_fn('getStatusTable', 'code', 'MessageClass', 'ResponseType', split_arms(arms), al_rs)
+    L += soft('getStatusTable', t_status)
+
+    def t_resptype():
+        body = find_fn_body(response, ['impl', 'CoapResponse'], 'new')
+        scrut, arms = find_match(body)
+        arms2 = []
+        for pat, expr in split_arms(arms):
+            if expr[:2] == [('id', 'return'), ('id', 'None')]:
+                arms2.append((pat, [('id', 'None')]))
+            else:
+                arms2.append((pat, [('id', 'Some'), ('op', '(')] + expr + [('op', ')')]))
+        return emit_match_fn('responseTypeFor', 't', 'MessageType', 'Option MessageType', arms2, al_rs)
+    L += soft('responseTypeFor', t_resptype)
 
     # HandlingError constructors: the response code each one carries
     error = tokenize(rd('error.rs'))
@@ -731,6 +785,8 @@ def main():
     S.append('def globalState : List String := [%s]' % ', '.join(lean_str(x) for x in global_state(all_files)))
     S += ['', 'end CoapLite.Shapes', '']
     open(os.path.join(out_dir, 'Shapes.lean'), 'w').write('\n'.join(S))
+    import json
+    json.dump(fallbacks, open(os.path.join(out_dir, 'fallbacks.json'), 'w'), indent=1)
 
 
 if __name__ == '__main__':
